@@ -2,10 +2,22 @@
 use super::fields::{Field, RecInfo};
 use serde_json::{json, Value};
 
-pub const VCS: [&str; 11] = ["zero", "one", "max", "max-1", "hi7f", "hi80", "inc", "dec", "dbl", "filelen", "tablelen"];
+pub const VCS: [&str; 13] = ["zero", "one", "max", "max-1", "hi7f", "hi80", "inc", "dec", "dbl", "filelen", "tablelen", "self", "parent"];
 
-/// The value a class names for a field of `w` bytes that held `old` (FaultModel!NewValue).
-pub fn new_value(vc: &str, old: u64, w: u8, flen: u64, tlen: u64) -> u64 {
+/// FaultModel!RefClasses / RefRoles / HasRef
+pub fn is_ref_class(vc: &str) -> bool {
+    vc == "self" || vc == "parent"
+}
+pub fn class_applies(vc: &str, role: &str) -> bool {
+    !is_ref_class(vc) || role == "offset" || role == "index"
+}
+pub fn has_ref(vc: &str, sv: i64, pv: i64) -> bool {
+    (vc != "self" || sv >= 0) && (vc != "parent" || pv >= 0)
+}
+
+/// The value a class names for a field of `w` bytes that held `old` (FaultModel!NewValue); `sv` /
+/// `pv` = the references of the field (>= 0 when the class is "self" / "parent").
+pub fn new_value(vc: &str, old: u64, w: u8, flen: u64, tlen: u64, sv: i64, pv: i64) -> u64 {
     let bits = 8 * w as u32;
     let mask: u64 = if bits >= 64 { u64::MAX } else { (1u64 << bits) - 1 };
     let v = match vc {
@@ -20,6 +32,8 @@ pub fn new_value(vc: &str, old: u64, w: u8, flen: u64, tlen: u64) -> u64 {
         "dbl" => old.wrapping_mul(2),
         "filelen" => flen,
         "tablelen" => tlen,
+        "self" => sv.max(0) as u64,
+        "parent" => pv.max(0) as u64,
         other => panic!("value class {}", other),
     };
     v & mask
@@ -71,9 +85,9 @@ pub fn apply(buf: &mut Vec<u8>, f: &CF, fields: &[Field], recs: &[RecInfo]) -> A
             let fd = &fields[*fi];
             let vc = VCS[*vi];
             let target = if fd.level == "dir" && ["sfnt", "ttcf", "wOFF", "wOF2"].contains(&fd.tbl.as_str()) { "*".to_string() } else { fd.tbl.clone() };
-            match rd(buf, fd.off, fd.w) {
+            match rd(buf, fd.off, fd.w).filter(|_| has_ref(vc, fd.selfv, fd.parentv)) {
                 Some(old) => {
-                    let new = new_value(vc, old, fd.w, flen, fd.tlen as u64);
+                    let new = new_value(vc, old, fd.w, flen, fd.tlen as u64, fd.selfv, fd.parentv);
                     wr(buf, fd.off, fd.w, new);
                     Applied {
                         desc: json!(["Overwrite", fd.role, vc, fd.level, fd.tbl, fd.name, fd.off, fd.w, hex64(old, fd.w), hex64(new, fd.w)]),
@@ -157,9 +171,11 @@ pub fn apply_model_fault(buf: &mut Vec<u8>, f: &Value) {
     match f["k"].as_str().unwrap() {
         "Overwrite" => {
             let (off, w) = (u("off"), u("w") as u8);
-            if let Some(old) = rd(buf, off, w) {
+            let (sv, pv) = (f["sv"].as_i64().unwrap_or(-1), f["pv"].as_i64().unwrap_or(-1));
+            let vc = f["vc"].as_str().unwrap();
+            if let Some(old) = rd(buf, off, w).filter(|_| has_ref(vc, sv, pv)) {
                 let flen = buf.len() as u64;
-                wr(buf, off, w, new_value(f["vc"].as_str().unwrap(), old, w, flen, u("tlen") as u64));
+                wr(buf, off, w, new_value(vc, old, w, flen, u("tlen") as u64, sv, pv));
             }
         }
         "Truncate" => buf.truncate(u("at")),
